@@ -4,6 +4,7 @@ import Driver.Ports
 import Driver.Outline
 import Driver.Fault
 import Driver.Savable
+import Driver.Futures
 
 /-- `pmodel <component>`: line-protocol driver over the executable model definitions. -/
 def main (args : List String) : IO UInt32 := do
@@ -14,4 +15,5 @@ def main (args : List String) : IO UInt32 := do
   | ["outline"] => DrvOutline.main; return 0
   | ["fault"] => DrvFault.main; return 0
   | ["savable"] => DrvSavable.main; return 0
-  | _ => IO.eprintln "usage: pmodel <expose|fault|outline|pm|ports|savable>"; return 2
+  | ["futures"] => DrvFutures.main; return 0
+  | _ => IO.eprintln "usage: pmodel <expose|fault|futures|outline|pm|ports|savable>"; return 2
